@@ -7,11 +7,46 @@
 #include "common.h"
 
 enum { O_END = 0, O_PUSH, O_PUSH_HEADCTX, O_PUSH2, O_POP, O_POP_TAILCTX, O_POP2,
-       O_POPWAIT, O_POPTIMED, O_REMOVE, O_SIZE };
+       O_POPWAIT, O_POPTIMED, O_REMOVE, O_SIZE,
+       /* legacy ABT_unit based calls (context is always OP_POOL_OTHER) */
+       O_PUSHU, O_POPU, O_POPWAITU,
+       /* *_ex calls with an explicit context CTX[x] */
+       O_PUSHX, O_PUSH2X, O_POPX, O_POP2X, O_POPWAITX, O_NOPS };
 
 typedef struct {
     int op, a, b; /* a,b: unit indices */
+    int x;        /* index into CTX[] for the *X operations */
 } opspec;
+
+/* Pool contexts handed to the *_ex calls.  RANDWS looks at exactly two groups
+ * of bits (src/pool/randws.c): a push goes to the head iff one of the four
+ * create/revive operation bits is set (POOL_CONTEXT_PUSH_HEAD), single and
+ * many alike; a pop / pop_many / pop_wait takes from the tail iff
+ * OWNER_SECONDARY is set (POOL_CONTEXT_POP_TAIL).  Everything else -- priority
+ * bits, OWNER_PRIMARY, the other operation bits, OWNER_SECONDARY on a push, a
+ * create bit on a pop -- must not change the end.  FIFO and FIFO_WAIT ignore
+ * the context altogether.  The reference model below restates this rule from
+ * the public flag names, not from the implementation's masks. */
+enum { X_OTHER = 0, X_CREATE, X_CREATE_TO, X_REVIVE, X_REVIVE_TO, X_SEC,
+       X_PRIM_YIELD, X_SEC_CREATE, X_RESUME_HI, X_SEC_YLOOP_LO, X_NCTX };
+static const ABT_pool_context CTX[X_NCTX] = {
+    ABT_POOL_CONTEXT_OP_POOL_OTHER,
+    ABT_POOL_CONTEXT_OP_THREAD_CREATE,
+    ABT_POOL_CONTEXT_OP_THREAD_CREATE_TO,
+    ABT_POOL_CONTEXT_OP_THREAD_REVIVE,
+    ABT_POOL_CONTEXT_OP_THREAD_REVIVE_TO,
+    ABT_POOL_CONTEXT_OWNER_SECONDARY,
+    ABT_POOL_CONTEXT_OWNER_PRIMARY | ABT_POOL_CONTEXT_OP_THREAD_YIELD,
+    /* both groups at once: head for a push, tail for a pop */
+    ABT_POOL_CONTEXT_OWNER_SECONDARY | ABT_POOL_CONTEXT_OP_THREAD_CREATE,
+    ABT_POOL_CONTEXT_OP_THREAD_RESUME | ABT_POOL_CONTEXT_PRIO_HIGH_PRIO,
+    ABT_POOL_CONTEXT_OWNER_SECONDARY | ABT_POOL_CONTEXT_OP_THREAD_YIELD_LOOP |
+        ABT_POOL_CONTEXT_PRIO_LOW_PRIO,
+};
+static const char *const CTXN[X_NCTX] = { "other", "create", "create_to",
+                                          "revive", "revive_to", "sec",
+                                          "prim+yield", "sec+create",
+                                          "resume+hi", "sec+yloop+lo" };
 
 #define MAXACT 3
 #define MAXOPS 3
@@ -24,7 +59,9 @@ typedef struct {
     int nact;
     opspec s[MAXACT][MAXOPS];
     int seq_depth;        /* >0: private pool, sequential enumeration */
+    int seq_alpha;        /* alphabet of the enumeration: A_BASIC / A_EX / A_UNIT */
 } cfg_t;
+enum { A_BASIC = 0, A_EX, A_UNIT };
 
 #define NUNITS 4
 #define WAIT_SECS 0.05
@@ -41,6 +78,15 @@ typedef struct {
 #define RM(u) { O_REMOVE, u, 0 }
 #define SZ { O_SIZE, 0, 0 }
 #define E { O_END, 0, 0 }
+/* legacy unit API and *_ex calls (x = context index) */
+#define PU(u) { O_PUSHU, u, 0, 0 }
+#define POPU { O_POPU, 0, 0, 0 }
+#define PWU { O_POPWAITU, 0, 0, 0 }
+#define PX(u, x) { O_PUSHX, u, 0, x }
+#define P2X(u, v, x) { O_PUSH2X, u, v, x }
+#define POPX(x) { O_POPX, 0, 0, x }
+#define POP2X(x) { O_POP2X, 0, 0, x }
+#define PWX(x) { O_POPWAITX, 0, 0, x }
 
 #define MIXES(K, KN, Q)                                                              \
     { KN " MPMC 2P+1C push|push|pop,pop", Q, K, ABT_POOL_ACCESS_MPMC, 0, 3,          \
@@ -67,6 +113,22 @@ typedef struct {
       3, 3, { { RM(1), E }, { RM(1), E }, { POP2, E } }, 0 },                         \
     { KN " PRIV sequential depth5", Q, K, ABT_POOL_ACCESS_PRIV, 0, 0, { { E } }, 5 }
 
+/* mixes of the unit API and the *_ex calls, per kind (QA..QD: quick flags) */
+#define XMIXES(K, KN, QA, QB, QC, QD)                                                \
+    { KN " MPMC unit-API pushU|pushU|popU,popU", QA, K, ABT_POOL_ACCESS_MPMC, 0, 3,  \
+      { { PU(0), E }, { PU(1), E }, { POPU, POPU, E } }, 0 },                         \
+    { KN " MPMC init1 unit-API pushU|popU|popwaitU", QB, K, ABT_POOL_ACCESS_MPMC, 1, \
+      3, { { PU(1), E }, { POPU, E }, { PWU, E } }, 0 },                              \
+    { KN " MPMC init1 push2X(create)|pop2X(sec)|pop", QC, K, ABT_POOL_ACCESS_MPMC,   \
+      1, 3, { { P2X(1, 2, X_CREATE), E }, { POP2X(X_SEC), E }, { POP, E } }, 0 },     \
+    { KN " MPSC init1 push2X(sec+create)|pushX(revive)|pop2X(sec+create),popX(prim+yield)", \
+      QD, K, ABT_POOL_ACCESS_MPSC, 1, 3,                                              \
+      { { P2X(1, 2, X_SEC_CREATE), E }, { PX(3, X_REVIVE), E },                       \
+        { POP2X(X_SEC_CREATE), POPX(X_PRIM_YIELD), E } }, 0 },                        \
+    { KN " SPSC popwaitX(sec),popX(sec)|push2X(create),pushU", 0, K,                 \
+      ABT_POOL_ACCESS_SPSC, 0, 2,                                                     \
+      { { PWX(X_SEC), POPX(X_SEC), E }, { P2X(0, 1, X_CREATE), PU(2), E } }, 0 }
+
 static const cfg_t cfgs[] = {
     MIXES(ABT_POOL_FIFO, "FIFO", 1),
     MIXES(ABT_POOL_FIFO_WAIT, "FIFO_WAIT", 1),
@@ -80,6 +142,54 @@ static const cfg_t cfgs[] = {
     { "RANDWS SPMC pushhead,push|poptail|pop2", 0, ABT_POOL_RANDWS,
       ABT_POOL_ACCESS_SPMC, 0, 3,
       { { PH(0), P(1), E }, { POPT, E }, { POP2, E } }, 0 },
+    /* ---- appended: operations the first table never called (indices above
+     * are unchanged).  ABT_pool_push/pop/pop_wait (ABT_unit based),
+     * ABT_pool_push_threads_ex / pop_threads_ex / pop_wait_thread_ex ---- */
+    XMIXES(ABT_POOL_FIFO, "FIFO", 1, 0, 1, 0),
+    XMIXES(ABT_POOL_FIFO_WAIT, "FIFO_WAIT", 0, 1, 0, 1),
+    XMIXES(ABT_POOL_RANDWS, "RANDWS", 0, 0, 1, 1),
+    /* FIFO_WAIT push_many broadcasts when it adds more than one unit: two
+     * sleeping waiters, both must get a unit or justify an empty hand */
+    { "FIFO_WAIT SPMC popwaitU|popwaitX(sec)|push2X(create) (broadcast)", 1,
+      ABT_POOL_FIFO_WAIT, ABT_POOL_ACCESS_SPMC, 0, 3,
+      { { PWU, E }, { PWX(X_SEC), E }, { P2X(0, 1, X_CREATE), E } }, 0 },
+    { "FIFO_WAIT SPMC popwaitX(other)|popwaitU|push2X(sec),pushU", 0,
+      ABT_POOL_FIFO_WAIT, ABT_POOL_ACCESS_SPMC, 0, 3,
+      { { PWX(X_OTHER), E }, { PWU, E }, { P2X(0, 1, X_SEC), PU(2), E } }, 0 },
+    /* RANDWS: the flag picks the end, for the many- and wait- variants too */
+    { "RANDWS MPMC init2 pop2X(sec)|pop2X(create)|push2X(revive_to)", 1,
+      ABT_POOL_RANDWS, ABT_POOL_ACCESS_MPMC, 2, 3,
+      { { POP2X(X_SEC), E }, { POP2X(X_CREATE), E }, { P2X(2, 3, X_REVIVE_TO), E } },
+      0 },
+    { "RANDWS MPMC init1 popwaitX(sec)|push2X(create_to)|popX(other)", 1,
+      ABT_POOL_RANDWS, ABT_POOL_ACCESS_MPMC, 1, 3,
+      { { PWX(X_SEC), E }, { P2X(1, 2, X_CREATE_TO), E }, { POPX(X_OTHER), E } }, 0 },
+    { "RANDWS SPSC popwaitX(sec),popwaitU|push2X(revive),pushX(sec)", 0,
+      ABT_POOL_RANDWS, ABT_POOL_ACCESS_SPSC, 0, 2,
+      { { PWX(X_SEC), PWU, E }, { P2X(0, 1, X_REVIVE), PX(2, X_SEC), E } }, 0 },
+    { "RANDWS MPMC init2 pop2X(sec+yloop+lo)|popwaitX(sec+create)|push2X(sec)", 0,
+      ABT_POOL_RANDWS, ABT_POOL_ACCESS_MPMC, 2, 3,
+      { { POP2X(X_SEC_YLOOP_LO), E }, { PWX(X_SEC_CREATE), E },
+        { P2X(2, 3, X_SEC), E } }, 0 },
+    /* private pools, sequential: every sequence over the *_ex alphabet (10
+     * operations; the context of each step rotates through the head / non-head
+     * / tail / non-tail flag lists) and over the unit-API alphabet (7) */
+    { "RANDWS PRIV sequential ex-alphabet depth4", 1, ABT_POOL_RANDWS,
+      ABT_POOL_ACCESS_PRIV, 0, 0, { { E } }, 4, A_EX },
+    { "FIFO_WAIT PRIV sequential unit-API alphabet depth4", 1, ABT_POOL_FIFO_WAIT,
+      ABT_POOL_ACCESS_PRIV, 0, 0, { { E } }, 4, A_UNIT },
+    { "RANDWS PRIV sequential ex-alphabet depth5", 0, ABT_POOL_RANDWS,
+      ABT_POOL_ACCESS_PRIV, 0, 0, { { E } }, 5, A_EX },
+    { "FIFO PRIV sequential ex-alphabet depth4", 0, ABT_POOL_FIFO,
+      ABT_POOL_ACCESS_PRIV, 0, 0, { { E } }, 4, A_EX },
+    { "FIFO_WAIT PRIV sequential ex-alphabet depth4", 0, ABT_POOL_FIFO_WAIT,
+      ABT_POOL_ACCESS_PRIV, 0, 0, { { E } }, 4, A_EX },
+    { "FIFO PRIV sequential unit-API alphabet depth5", 0, ABT_POOL_FIFO,
+      ABT_POOL_ACCESS_PRIV, 0, 0, { { E } }, 5, A_UNIT },
+    { "FIFO_WAIT PRIV sequential unit-API alphabet depth5", 0, ABT_POOL_FIFO_WAIT,
+      ABT_POOL_ACCESS_PRIV, 0, 0, { { E } }, 5, A_UNIT },
+    { "RANDWS PRIV sequential unit-API alphabet depth5", 0, ABT_POOL_RANDWS,
+      ABT_POOL_ACCESS_PRIV, 0, 0, { { E } }, 5, A_UNIT },
 };
 
 /* --- history -------------------------------------------------------------*/
